@@ -252,3 +252,61 @@ def _leaf_typing():
 
 
 _leaf_typing()
+
+
+# --------------------------------------------------------------------------- $deref typing
+def _deref_typing():
+    EMIT = ["main_reg", "register_multiplier", "constant_multiplier", "constant_offset"]      # [a+b*c+k]
+    sets = [("a", ["main_reg"]), ("ak", ["main_reg", "constant_offset"]), ("abc", EMIT[:3]), ("abck", EMIT),
+            ("ab", EMIT[:2]), ("abk", ["main_reg", "register_multiplier", "constant_offset"])]
+    for sname, fields in sets:
+        sid = f"typing:$deref:{sname}"
+
+        def run(sname=sname, fields=fields, sid=sid):
+            ensure()
+            import itertools
+            obs: List[Ob] = []
+            props = ["C06", "C05", "C03"]
+            for cname in ("MNEMONIC",):
+                for perm in itertools.permutations(fields):
+                    levels: Dict[str, str] = {}
+                    log = BuildLog()
+                    holder: Dict[str, Any] = {}
+
+                    def fn(perm=perm):
+                        log.calls.clear()
+                        kids = [untyped(f, [untyped(Name("v_" + f), cid="v_" + f)], cid=f) for f in perm]
+                        holder["ctx"] = CTX[cname]()
+                        with patched_build(log, levels):
+                            b = getattr(J.ast_builder, BUILDER_OF_CTX[cname])()
+                            return b.build(untyped("$deref", kids, cid="root"), holder["ctx"])
+                    run_ = sym_run(fn)
+                    for i, p in enumerate(run_.paths):
+                        base = f"NodeBuilder.build:{sid}:{'-'.join(x[:1] + x.split('_')[-1][:1] for x in perm)}:p{i}"
+                        if p.kind != "ret":
+                            obs.append(simple_ob(base + ":EXC", NB, "EXC", "no exception", False, props, detail=repr(p.value), witness=type(p.value).__name__))
+                            continue
+                        res = p.value
+                        want = [f for f in EMIT if f in fields]
+                        kids = res.children or []
+                        okc = type(res).__name__ == "PatternNodeDeref" and [type(k).__name__ for k in kids] == ["PatternNodeDerefProperty"] * len(want) \
+                            and [str(k.name) for k in kids] == want
+                        obs.append(simple_ob(base + ":POST-FIELDS", NB, "POST",
+                                             "$deref is typed PatternNodeDeref; its fields are PatternNodeDerefProperty nodes in the order the regex emits them "
+                                             "(main_reg, register_multiplier, constant_multiplier, constant_offset), whatever order they were written in",
+                                             okc, props, detail=repr([(type(k).__name__, str(k.name)) for k in kids]), witness=repr(perm)))
+                        calls = list(log.calls)
+                        okb = [c[1] for c in calls] == ["v_" + f for f in want] and all(c[0] == "DerefChildrenBuilder" and c[2] == "DEREF" for c in calls)
+                        obs.append(simple_ob(base + ":POST-VALUES", NB, "POST",
+                                             "the field values are built once each, in emission order (= capture registration order), by DerefChildrenBuilder "
+                                             "in DEREF context", okb, props, detail=repr(calls), witness=repr(perm)))
+                        c = holder["ctx"]
+                        obs.append(simple_ob(base + ":FRAME-context", NB, "FRAME",
+                                             "the caller's build context is not modified (later siblings of the $deref are typed in the operator's own context)",
+                                             c.ancester_type.name == cname, ["C03", "C06", "C05"], detail=c.ancester_type.name, witness=c.ancester_type.name))
+            return obs
+        scenario(sid, NB, ["C06", "C05", "C03"], inlined=["DerefHandler.handle/_handle_children/_build_grandchildren/_field_position"],
+                 doc="typing of a $deref item: field order, value builders, caller context untouched")(run)
+
+
+_deref_typing()
